@@ -71,6 +71,9 @@ Definition capply (o : cop) (cs : cstate) : cstate :=
 Definition crun (h : list cop) (cs : cstate) : cstate := fold_left (fun cs o => capply o cs) h cs.
 
 Lemma stacktop_reset : STACKTOP_RESET_BEFORE_ERROR_RETURN = true. Proof. reflexivity. Qed.
+(* coroutine.create registers the whole coroutine block (desc.coro_size: header, storage AND stack):
+   the premise of coroutine_stack_kept that the coroutine's frames lie in the registered item's words *)
+Lemma coro_registered_whole : CORO_REGISTERED_WITH_CORO_SIZE = true. Proof. reflexivity. Qed.
 
 (* gc.stacktop is zero whenever the main program runs, and names the whole main stack whenever a
    coroutine runs; the collector state stays in its invariant *)
